@@ -1,12 +1,16 @@
 import TbbVerif.Core.Proto
 import TbbVerif.Model.C09
+import TbbVerif.Model.C09Page
+import TbbVerif.Model.C09Seq
 
 open TbbVerif
 
 def drivers : List (String × Proto.Driver) := [
   ("c09q", C09.driverQ),
   ("c09pure", Proto.pureDriver C09.drivePure),
-  ("c09ring", C09.driverRing)
+  ("c09ring", C09.driverRing),
+  ("c09pg", C09.Pg.driver),
+  ("c09seq", C09.Seq.driver)
 ]
 
 def main (args : List String) : IO UInt32 := Proto.mainOf drivers args
